@@ -321,13 +321,14 @@ pub(crate) mod dev {
         pub fill: u8,
         pub watch_addr: u64,
         pub watch_val: u8,
+        pub watch_hit: bool,
         pub max_end: u64,
         pub total_writes: u32,
     }
     impl LogDev {
         pub(crate) fn new(end: u64) -> Self {
             Self { pos: 0, end, nw: 0, w_off: [0; LOGN], w_len: [0; LOGN], w_first: [0; LOGN], overflow: false, nreads: 0, r_off: 0, r_len: 0,
-                   flushes: 0, writes_at_last_flush: 0, fill: 0, watch_addr: u64::MAX, watch_val: 0, max_end: 0, total_writes: 0 }
+                   flushes: 0, writes_at_last_flush: 0, fill: 0, watch_addr: u64::MAX, watch_val: 0, watch_hit: false, max_end: 0, total_writes: 0 }
         }
     }
     impl IoBase for LogDev { type Error = (); }
@@ -361,6 +362,7 @@ pub(crate) mod dev {
             }
             if n > 0 && self.watch_addr >= a && self.watch_addr - a < n {
                 self.watch_val = buf[(self.watch_addr - a) as usize];
+                self.watch_hit = true;
             }
             self.pos = a.wrapping_add(n);
             Ok(buf.len())
@@ -426,7 +428,7 @@ pub(crate) mod dev {
         }
         fn dir_hit(&mut self, a: u64, n: u64) -> Option<usize> {
             if a + n <= self.dir_base || a >= self.dir_base + DIRW as u64 { return None; }
-            if a < self.dir_base || a + n > self.dir_base + DIRW as u64 || n > 32 { self.oob = true; return None; }
+            if a < self.dir_base || a + n > self.dir_base + DIRW as u64 || n > 11 { self.oob = true; return None; }
             Some((a - self.dir_base) as usize)
         }
     }
@@ -443,8 +445,18 @@ pub(crate) mod dev {
                 if n >= 3 { buf[2] = f[o + 2]; }
                 if n >= 4 { buf[3] = f[o + 3]; }
             } else if let Some(o) = self.dir_hit(a, n) {
-                let mut i = 0;
-                while i < buf.len() { buf[i] = self.dir[o + i]; i += 1; }
+                // straight-line (no loop to unwind when the length is not a constant); slots are transferred in pieces <= 11 bytes
+                if n >= 1 { buf[0] = self.dir[o + 0]; }
+                if n >= 2 { buf[1] = self.dir[o + 1]; }
+                if n >= 3 { buf[2] = self.dir[o + 2]; }
+                if n >= 4 { buf[3] = self.dir[o + 3]; }
+                if n >= 5 { buf[4] = self.dir[o + 4]; }
+                if n >= 6 { buf[5] = self.dir[o + 5]; }
+                if n >= 7 { buf[6] = self.dir[o + 6]; }
+                if n >= 8 { buf[7] = self.dir[o + 7]; }
+                if n >= 9 { buf[8] = self.dir[o + 8]; }
+                if n >= 10 { buf[9] = self.dir[o + 9]; }
+                if n >= 11 { buf[10] = self.dir[o + 10]; }
             } else if n > 0 && self.watch_addr >= a && self.watch_addr - a < n {
                 buf[(self.watch_addr - a) as usize] = self.watch_val;
             }
@@ -465,10 +477,32 @@ pub(crate) mod dev {
                 if n >= 2 { f[o + 1] = buf[1]; }
                 if n >= 3 { f[o + 2] = buf[2]; }
                 if n >= 4 { f[o + 3] = buf[3]; }
+            } else if n > 11 && a <= self.dir_base && a.wrapping_add(n) >= self.dir_base + DIRW as u64 && self.dir_base < self.limit {
+                // a bulk write covering the WHOLE window (a cluster being zeroed): modelled as a uniform fill with its first
+                // byte (first and last byte are compared; the library only ever bulk-writes zeros); also logged as a payload write
+                if buf[0] != buf[buf.len() - 1] { self.oob = true; }
+                self.dir = [buf[0]; DIRW];
+                if self.nw < LOGN {
+                    self.w_off[self.nw] = a;
+                    self.w_len[self.nw] = n;
+                    self.w_first[self.nw] = buf[0];
+                    self.nw += 1;
+                } else {
+                    self.overflow = true;
+                }
             } else if let Some(o) = self.dir_hit(a, n) {
                 self.dir_writes += 1;
-                let mut i = 0;
-                while i < buf.len() { self.dir[o + i] = buf[i]; i += 1; }
+                if n >= 1 { self.dir[o + 0] = buf[0]; }
+                if n >= 2 { self.dir[o + 1] = buf[1]; }
+                if n >= 3 { self.dir[o + 2] = buf[2]; }
+                if n >= 4 { self.dir[o + 3] = buf[3]; }
+                if n >= 5 { self.dir[o + 4] = buf[4]; }
+                if n >= 6 { self.dir[o + 5] = buf[5]; }
+                if n >= 7 { self.dir[o + 6] = buf[6]; }
+                if n >= 8 { self.dir[o + 7] = buf[7]; }
+                if n >= 9 { self.dir[o + 8] = buf[8]; }
+                if n >= 10 { self.dir[o + 9] = buf[9]; }
+                if n >= 11 { self.dir[o + 10] = buf[10]; }
             } else {
                 if self.nw < LOGN {
                     self.w_off[self.nw] = a;
